@@ -1112,3 +1112,56 @@ Proof.
   { apply forallb_forall. intros x Hx. apply cmd_reachable_reflect. rewrite Forall_forall in H. auto. }
   congruence.
 Qed.
+
+(* ------------------------------------------------------------------ (3b') a rejected start changes nothing *)
+
+Lemma start_busy : forall s cands nrepl ft fc fcr s' e,
+  start s cands nrepl ft fc fcr = (s', (ErrBusy, e)) -> e = [] /\ snap_of s' = snap_of s.
+Proof.
+  intros s cands nrepl ft fc fcr s' e E. unfold start in E.
+  destruct (negb (valid_cands (s_n s) cands)); [inversion E|].
+  destruct (existsb (in_queue (s_q s)) cands).
+  { inversion E; subst. split; reflexivity. }
+  destruct (existsb (fun c => n_gone (s_nodes s c) || obj_gone (s_nodes s c)) cands); [inversion E|].
+  destruct (mark_all (s_nodes s) ft fc cands) as [[[nodes1 e1] marked] err].
+  destruct (err && ((0 <? nrepl) || is_nil marked)); [inversion E|].
+  destruct (create_all (s_next s) (existsb (fun c => n_mark (nodes1 c)) marked) fcr (seq 0 nrepl) (s_keys s) (s_repl s))
+    as [[[keys1 renv1] e2] cerr].
+  destruct cerr; inversion E.
+Qed.
+
+Lemma owners_snap : forall s, owners (snap_of s) = map (fun n => owner (s_q s) n) (seq 0 (s_n s)).
+Proof. intros s. unfold owners. simpl. rewrite map_map. reflexivity. Qed.
+
+Lemma rejected_start_inert_step : forall s o, inv s -> rejected_start_inert (ostep_of s o).
+Proof.
+  intros s o Hinv. unfold ostep_of, rejected_start_inert. simpl o_ret. simpl o_eff. simpl o_snap.
+  destruct (step s o) as [s' [r e]] eqn:E. simpl.
+  destruct o; try (pose proof (env_facts _ _ _ _ _ Hinv E) as Hf; simpl in Hf; destruct Hf as [_ [-> _]]; split; discriminate).
+  - simpl in E. split.
+    + intros Hr. pose proof (start_facts _ _ _ _ _ _ _ _ _ Hinv E) as [_ [Herr [_ [_ [Hn _]]]]].
+      destruct (Herr Hr) as [Hq _]. rewrite !owners_snap, Hn, Hq. reflexivity.
+    + intros Hr. subst r. destruct (start_busy _ _ _ _ _ _ _ _ E) as [-> Hs].
+      split; [reflexivity|]. split; [exact (f_equal taints Hs)|]. split; [exact (f_equal conds Hs)|].
+      split; [exact (f_equal marks Hs) | exact (f_equal sn_cmds Hs)].
+  - simpl in E. assert (Hne : is_start_error r = false /\ r <> ErrBusy).
+    { destruct (find (holds_node n) (s_q s)) as [c|] eqn:Ef.
+      - clear - E Ef. unfold recon in E. rewrite Ef in E.
+        destruct (wait_loop (s_repl s (c_id c)) fget 0 (c_latched c)) as [[l' w] v].
+        repeat match type of E with
+        | context [match ?x with _ => _ end] => destruct x
+        | context [if ?x then _ else _] => destruct x
+        end; inversion E; subst; split; (reflexivity || discriminate).
+      - rewrite recon_nocmd in E by assumption. inversion E; subst. split; [reflexivity | discriminate]. }
+    destruct Hne as [H1 H2]. split; [rewrite H1; discriminate | intros; contradiction].
+  - simpl in E. assert (Hne : is_start_error r = false /\ r <> ErrBusy).
+    { clear - E. unfold cleanup in E.
+      repeat match type of E with
+      | context [match ?x with _ => _ end] => destruct x
+      | context [if ?x then _ else _] => destruct x
+      end; inversion E; subst; split; (reflexivity || discriminate). }
+    destruct Hne as [H1 H2]. split; [rewrite H1; discriminate | intros; contradiction].
+Qed.
+
+Lemma rejected_start_changes_nothing_l : forall n ops, Forall rejected_start_inert (trace (init n) ops).
+Proof. intros n ops. apply trace_forall; [exact rejected_start_inert_step | apply inv_init]. Qed.
